@@ -403,44 +403,44 @@ def norm_match(o, g, depth=0, col=None, cnt=None):
         if cnt is not None: cnt[name] = cnt.get(name, 0) + 1
     if depth > 0: c("cells.nested")
     if o is None:
-        return None if _is_missing(g) else ("none/not-none", f"None read back as {g!r}")
+        return None if _is_missing(g) else ("none/not-none", f"None read back as {_safe_repr(g)}")
     if isinstance(o, bool):
-        return None if g is o else ("value-changed/kind=bool", f"{o!r} read back as {g!r}")
+        return None if g is o else ("value-changed/kind=bool", f"{o!r} read back as {_safe_repr(g)}")
     if isinstance(o, int):
-        return None if (type(g) is int and g == o) else ("value-changed/kind=int", f"{o!r} read back as {g!r}")
+        return None if (type(g) is int and g == o) else ("value-changed/kind=int", f"{o!r} read back as {_safe_repr(g)}")
     if isinstance(o, float):
         if o != o:
             c("cells.nan-or-inf")
-            return None if (isinstance(g, float) and g != g) else ("value-changed/kind=nan", f"nan read back as {g!r}")
+            return None if (isinstance(g, float) and g != g) else ("value-changed/kind=nan", f"nan read back as {_safe_repr(g)}")
         if o in (math.inf, -math.inf):
             c("cells.nan-or-inf")
-            return None if (isinstance(g, float) and g == o) else ("value-changed/kind=inf", f"{o!r} read back as {g!r}")
+            return None if (isinstance(g, float) and g == o) else ("value-changed/kind=inf", f"{o!r} read back as {_safe_repr(g)}")
         if isinstance(g, bool) or not isinstance(g, (int, float)):
-            return ("value-changed/kind=float", f"{o!r} read back as {g!r}")
+            return ("value-changed/kind=float", f"{o!r} read back as {_safe_repr(g)}")
         if g != g or g in (math.inf, -math.inf):
-            return ("value-changed/kind=float", f"{o!r} read back as {g!r}")
+            return ("value-changed/kind=float", f"{o!r} read back as {_safe_repr(g)}")
         c("cells.float")
         if round(o, 5) != o: c("cells.float-rounded")
         tol = FLOAT_TOL * (1 + 1e-9) + (4 * math.ulp(o) if abs(o) > 1e10 else 1e-15)
         if abs(g - o) > tol:
-            return ("float/differs-by-more-than-half-1e-5", f"{o!r} read back as {g!r}")
+            return ("float/differs-by-more-than-half-1e-5", f"{o!r} read back as {_safe_repr(g)}")
         if isinstance(g, float) and abs(o) < 1e10 and abs(g - round(g, 5)) > 1e-12 * max(1.0, abs(g)):
-            return ("float/more-than-5-decimals", f"{o!r} read back as {g!r}")
+            return ("float/more-than-5-decimals", f"{o!r} read back as {_safe_repr(g)}")
         return None
     if isinstance(o, str):
         if any(ord(ch) > 127 or ch in "\n\r" for ch in o): c("cells.unicode-or-newline-str")
-        return None if (type(g) is str and g == o) else ("value-changed/kind=str", f"{o!r} read back as {g!r}")
+        return None if (type(g) is str and g == o) else ("value-changed/kind=str", f"{o!r} read back as {_safe_repr(g)}")
     if isinstance(o, (list, tuple)):
         if depth == 0:
             c("cells.top-level-seq")
             if col == "rewards":
-                if not isinstance(g, (list, tuple)): return ("value-changed/kind=seq", f"{o!r} read back as {g!r}")
+                if not isinstance(g, (list, tuple)): return ("value-changed/kind=seq", f"{o!r} read back as {_safe_repr(g)}")
             elif type(g) is not tuple:
-                if isinstance(g, list): return ("top-level-seq/read-back-as-list", f"{o!r} read back as {g!r}")
-                return ("value-changed/kind=seq", f"{o!r} read back as {g!r}")
+                if isinstance(g, list): return ("top-level-seq/read-back-as-list", f"{o!r} read back as {_safe_repr(g)}")
+                return ("value-changed/kind=seq", f"{o!r} read back as {_safe_repr(g)}")
         elif not isinstance(g, (list, tuple)):
-            return ("value-changed/kind=nested-seq", f"{o!r} read back as {g!r}")
-        if len(g) != len(o): return ("value-changed/kind=seq-length", f"{o!r} read back as {g!r}")
+            return ("value-changed/kind=nested-seq", f"{o!r} read back as {_safe_repr(g)}")
+        if len(g) != len(o): return ("value-changed/kind=seq-length", f"{o!r} read back as {_safe_repr(g)}")
         for a, b in zip(o, g):
             r = norm_match(a, b, depth + 1, col, cnt)
             if r: return (r[0], r[1], "nested")
@@ -450,10 +450,10 @@ def norm_match(o, g, depth=0, col=None, cnt=None):
             # plain data that, once written, cannot be told from a written registered object: it is still data
             c("cells.plain-dict-keyed-by-registered-name")
             if type(g) is not dict:
-                return (f"plain-dict-keyed-by-registered-name/read-back-as={type(g).__name__}", f"the dict {o!r} read back as {g!r} ({type(g).__name__})")
-        if type(g) is not dict: return ("value-changed/kind=dict", f"{o!r} read back as {g!r}")
+                return ("plain-dict-keyed-by-registered-name/read-back-as=object", f"the dict {o!r} read back as {_safe_repr(g)} ({type(g).__name__})")
+        if type(g) is not dict: return ("value-changed/kind=dict", f"{o!r} read back as {_safe_repr(g)}")
         want = {str(k): v for k, v in o.items()}
-        if set(want) != set(g.keys()): return ("value-changed/kind=dict-keys", f"{o!r} read back as {g!r}")
+        if set(want) != set(g.keys()): return ("value-changed/kind=dict-keys", f"{o!r} read back as {_safe_repr(g)}")
         for k, v in want.items():
             r = norm_match(v, g[k], depth + 1, col, cnt)
             if r: return (r[0], r[1], "nested")
@@ -461,9 +461,9 @@ def norm_match(o, g, depth=0, col=None, cnt=None):
     if isinstance(o, Rewards):
         c("cells.reward-object")
         if type(g) is not type(o):
-            return (f"reward-object/read-back-as={type(g).__name__}", f"{o!r} read back as {g!r}")
+            return (f"reward-object/read-back-as={type(g).__name__}", f"{o!r} read back as {_safe_repr(g)}")
         if reward_probe(o) != reward_probe(g):
-            return ("reward-object/behaviour-changed", f"{o!r} read back as {g!r}")
+            return ("reward-object/behaviour-changed", f"{o!r} read back as {_safe_repr(g)}")
         return None
     raise TypeError(f"unexpected produced value {o!r}")
 
@@ -486,8 +486,22 @@ def identical(a, b, path=""):
             r = identical(a[k], b[k], f"{path}[{k!r}]")
             if r: return r
         return None
-    if isinstance(a, Rewards): return None if reward_probe(a) == reward_probe(b) else f"{path}: {a!r} vs {b!r}"
-    return None if a == b else f"{path}: {a!r} vs {b!r}"
+    if isinstance(a, Rewards):
+        return None if identical(reward_probe(a), reward_probe(b), path + "<probe>") is None else f"{path}: {_safe_repr(a)} vs {_safe_repr(b)}"
+    if isinstance(a, (str, int, bool, type(None))): return None if a == b else f"{path}: {a!r} vs {b!r}"
+    # any other object (same type): equal, or without an __eq__ of its own and in the same state
+    try:
+        if a == b: return None
+    except Exception: pass
+    try:
+        sa, sb = a.__getstate__(), b.__getstate__()
+        if type(a).__eq__ is object.__eq__ and identical(sa, sb, path + "<state>") is None: return None
+    except Exception: pass
+    return f"{path}: {_safe_repr(a)} vs {_safe_repr(b)}"
+
+def _safe_repr(x):
+    try: return repr(x)
+    except Exception as e: return f"<{type(x).__name__} whose repr raises {type(e).__name__}>"
 
 def table_dump(t):
     cols = tuple(t.columns)
@@ -564,7 +578,7 @@ def raise_signature(spec, exc):
                     if firstbad is None: continue
                     firstbad = "absent-or-None" if firstbad in ("absent", "none") else "scalar"
                     return sig + f"/column-starts-with-seq-cell/has-{firstbad}-cell"
-    if fn in ("__setstate__", "loads_registered", "list2tuple", "packed_list2tuple", "<dictcomp>", "filter") and spec_has_tagged_dict(spec):
+    if fn in ("__setstate__", "__repr__", "loads_registered", "list2tuple", "packed_list2tuple", "<dictcomp>", "filter") and spec_has_tagged_dict(spec):
         return sig + "/data-holds-plain-dict-keyed-by-registered-name"
     return sig
 
@@ -659,7 +673,7 @@ def check_params_table(table, idcol, comps, idmap, extra_ok, name, viol, cnt, no
             if k == idcol or k in want: continue
             if k in extra_ok and k not in want: continue       # the Safe* wrapper's type field
             if not _is_missing(g):
-                viol.append((f"{name}/param-invented", f"{name} id {cid}: column {k!r} holds {g!r} but the component has no such param")); return
+                viol.append((f"{name}/param-invented", f"{name} id {cid}: column {k!r} holds {_safe_repr(g)} but the component has no such param")); return
             cnt["cells.absent"] = cnt.get("cells.absent", 0) + 1
 
 def check_against_model(spec, res, viol, ctx, cnt):
@@ -693,7 +707,9 @@ def check_against_model(spec, res, viol, ctx, cnt):
             note("skipped.rows-without-any-field"); continue       # N rows without a single field: not representable, not asserted
         note("oracle.interactions.triples")
         if len(grows) != len(rows):
-            viol.append((f"interactions/row-count/{'lost' if len(grows) < len(rows) else 'extra'}-rows",
+            names = {str(build(k)) for items in rows for k, _ in items}
+            sole = "/sole-field-named-like-registered-class" if len(names) == 1 and next(iter(names)) in TAG_NAMES else ""
+            viol.append((f"interactions/row-count/{'lost' if len(grows) < len(rows) else 'extra'}-rows{sole}",
                          f"triple {tid}: evaluator yielded {len(rows)} rows, table has {len(grows)}")); continue
         if not rows: continue
         note("oracle.index-1..N")
@@ -730,12 +746,12 @@ def check_against_model(spec, res, viol, ctx, cnt):
                 else:
                     cnt["cells.absent"] = cnt.get("cells.absent", 0) + 1
                     if not _is_missing(g[k]):
-                        viol.append((f"interactions/absent-field-not-None{colflag}", f"triple {tid} row {i+1}: absent field {k!r} reads {g[k]!r}")); bad = True; break
+                        viol.append((f"interactions/absent-field-not-None{colflag}", f"triple {tid} row {i+1}: absent field {k!r} reads {_safe_repr(g[k])}")); bad = True; break
             if bad: break
             for k, val in g.items():            # fields of other triples must be empty here
                 if k in ID_COLS or k in want or k in keys: continue
                 if not _is_missing(val):
-                    viol.append(("interactions/field-invented", f"triple {tid} row {i+1}: column {k!r} holds {val!r}, the row has no such field")); bad = True; break
+                    viol.append(("interactions/field-invented", f"triple {tid} row {i+1}: column {k!r} holds {_safe_repr(val)}, the row has no such field")); bad = True; break
             if bad: break
     for tid, grows in got.items():
         viol.append(("interactions/rows-for-unknown-triple", f"table holds {len(grows)} rows for triple {tid} which is not in the experiment"))
